@@ -415,6 +415,10 @@ def classify(ctx, heap, f, node, kind, target):
             shared_tbl = _class_level_container(heap, f, place) if root == "self" and f.cls is not None else None
             if shared_tbl:
                 v_attrs = _self_attrs(f, node.value) - {place.value.attr if isinstance(place.value, ast.Attribute) else None}
+                # another table that lives on the class is the same object for every instance: not per-instance state
+                v_attrs = {a_ for a_ in v_attrs if not _class_level_container(
+                    heap, f, ast.Subscript(value=ast.Attribute(value=ast.Name(id="self", ctx=ast.Load()), attr=a_, ctx=ast.Load()),
+                                           slice=ast.Constant(value=0), ctx=ast.Load()))}
                 k_attrs = _self_attrs(f, place.slice)
                 ident = _identity_attrs(ctx, f.cls)
                 if v_attrs - k_attrs and not (k_attrs & ident):
